@@ -541,7 +541,7 @@ def register(eng):
         raise Panic("assert", "assertion failed", callee)
 
     # ---- formatting: uninterpreted (error-message text is outside every claim)
-    @model("fmt::format", "Arguments::new_const", "Arguments::new_v1", "Arguments::new_v1_formatted", "Argument::new_debug",
+    @model("fmt::format", "format", "Arguments::new_const", "Arguments::new_v1", "Arguments::new_v1_formatted", "Argument::new_debug",
            "Argument::new_display", "Argument::new_lower_hex", "Arguments::new", "Arguments::from_str", "fmt::Arguments::new_const",
            "Argument::new_upper_hex", "Formatter::write_fmt", "Formatter::write_str", "Formatter::debug_tuple_field1_finish",
            "hex::encode", "Argument::none", "Arguments::from_str_nonconst")
@@ -565,6 +565,10 @@ def register(eng):
         if isinstance(x, StrM):
             return StrM(list(x.bytes), True)
         return x
+
+    @model("must_use", "hint::must_use", "convert::identity", "identity", "hint::black_box")
+    def _identity(eng, a, callee):
+        return a[0]
 
     # ---- Box
     @model("Box::new", "Box::pin")
@@ -806,7 +810,7 @@ def register(eng):
         if m:
             from mirparse import split_top
             parts = split_top(m.group(1))
-            want = strip_generics(parts[-1])
+            want = eng.canon_type(parts[-1], eng._cur_module)
             have = eng.runtime_type(e)
             if want != have and have not in ("Opaque",) and not re.fullmatch(r"[A-Z]\w?", want):
                 e = convert_from(eng, e, want, parts[-1])
@@ -814,8 +818,8 @@ def register(eng):
 
     def convert_from(eng, v, want, want_full):
         have = eng.runtime_type(v)
-        for t, itg, ty, bl, bounds, methods in eng.impls:
-            if t == "From" and strip_generics(ty) == want and "from" in methods and strip_generics(itg) == have:
+        for t, itg, ty, bl, bounds, methods, cself, mod in eng.impls:
+            if t == "From" and cself == want and "from" in methods and eng.canon_type(itg, mod) == have:
                 return eng.call_fn(methods["from"], [v])
         raise Unmodelled("error conversion From<%s> for %s" % (have, want))
     eng.convert_from = convert_from
@@ -845,8 +849,8 @@ def register(eng):
         if dst == "Option":
             return some(v)
         # user impl From<src> for dst
-        for t, itg, ty, bl, bounds, methods in eng.impls:
-            if t == "From" and strip_generics(ty) == dst and "from" in methods and (strip_generics(itg) == rt or strip_generics(itg) == src):
+        for t, itg, ty, bl, bounds, methods, cself, mod in eng.impls:
+            if t == "From" and cself.split("::")[-1] == dst and "from" in methods and (eng.canon_type(itg, mod) == rt or strip_generics(itg) == src):
                 return eng.call_fn(methods["from"], [v])
         if int_like(v):
             import engine as E
@@ -1690,7 +1694,7 @@ def register(eng):
     @model("i128::checked_add", "i128::checked_sub", "i128::checked_neg", "i64::checked_add", "u64::checked_add", "u64::checked_sub",
            "i128::checked_mul", "u64::checked_mul", "usize::checked_add", "usize::checked_sub", "i64::checked_neg", "i64::checked_sub")
     def _(eng, a, c):
-        m = re.search(r"(\w+)::checked_(\w+)", c)
+        m = re.search(r"([iu](?:\d+|size))>?::checked_(\w+)", c)
         ty, op = m.group(1), m.group(2)
         if op == "neg":
             r = eng.binop("SubWithOverflow", 0, a[0], ty)
@@ -1717,7 +1721,7 @@ def register(eng):
     @model("i128::to_be_bytes", "u128::to_be_bytes", "u64::to_be_bytes", "u32::to_be_bytes")
     def _(eng, a, c):
         import engine as E
-        ty = re.search(r"(\w+)::to_be_bytes", c).group(1)
+        ty = re.search(r"([iu](?:\d+|size))>?::to_be_bytes", c).group(1)
         w, _ = E.INT[ty]
         x = a[0]
         if isinstance(x, int):
@@ -1727,7 +1731,7 @@ def register(eng):
     @model("i128::from_be_bytes", "u128::from_be_bytes", "u64::from_be_bytes", "u32::from_be_bytes")
     def _(eng, a, c):
         import engine as E
-        ty = re.search(r"(\w+)::from_be_bytes", c).group(1)
+        ty = re.search(r"([iu](?:\d+|size))>?::from_be_bytes", c).group(1)
         w, sg = E.INT[ty]
         bs = deref(a[0]).items
         if all(isinstance(b, int) for b in bs):
